@@ -12,6 +12,17 @@ def knobs(rnd):
 V = lambda n: ('V', n)
 
 
+def _fix(b):
+    """('call_eq',) stands for the goal term X = Y"""
+    if isinstance(b, str):
+        return b
+    if b[0] == 'call':
+        return ('call', b[1], [(('F', '=', [V('X'), V('Y')]) if a == ('call_eq',) else a) for a in b[2]])
+    if b[0] == 'neg':
+        return ('neg', _fix(b[1]))
+    return (b[0], _fix(b[1]), _fix(b[2]))
+
+
 def committed_goal_case(rep, drv, rnd, i):
     """meta-calls on goals whose answers come from clauses that end in a cut (the generated function
     yields True there), also with a second definition chained after the first"""
@@ -41,6 +52,15 @@ def committed_goal_case(rep, drv, rnd, i):
         ('t12', [V('L'), V('Y')], ('conj', ('call', '=', [V('T'), ('F', 'g', [V('Y'), V('W')])]),
                                    ('conj', ('call', 'findall', [V('T'), ('F', 'it', [V('W')]), V('L')]), ('call', '=', [V('Y'), ('A', 'after')])))),
     ]
+    callers += [
+        # the goal aliases two variables of the template without binding them: the copy keeps the sharing
+        ('t13', [V('B')], ('conj', ('call', 'findall', [('F', 'pair', [V('X'), V('Y')]), ('call_eq',), V('L')]),
+                           ('conj', ('call', '=', [V('L'), ('L', [('F', 'pair', [V('A'), V('B')])])]), ('call', '=', [V('A'), ('A', 'one')])))),
+        ('t14', [V('B'), V('C')], ('conj', ('call', 'findall', [('F', 'tr', [V('X'), V('Y'), V('Z')]), ('F', 'al3', [V('X'), V('Y'), V('Z')]), V('L')]),
+                                   ('conj', ('call', '=', [V('L'), ('P', [('F', 'tr', [V('A'), V('B'), V('C')])], ('_',))]), ('call', '=', [V('B'), ('A', 'two')])))),
+    ]
+    callers = [(n, h, _fix(b)) for n, h, b in callers]
+    prog.append(('al3', [V('X'), V('Y'), V('Z')], ('conj', ('call', '=', [V('X'), V('Z')]), ('call', 'it', [V('Y')])), True))
     chosen = rnd.sample(callers, rnd.randint(4, len(callers)))
     prog += [(n, h, b, True) for n, h, b in chosen]
     ops = [('load', 'overwrite', prog)]
@@ -60,7 +80,11 @@ def cleared_case(rep, drv, rnd, i):
     g = gen.ProgGen(rnd, knobs(rnd))
     prog = g.program()
     qs = [('query', name, ('all',), args) for name, args in g.queries(3)]
-    ops = [('load', 'overwrite', prog)] + qs[:1] + [('clear',)] + qs[:1] + [('load', 'overwrite', prog)] + qs
+    nil = [Sym('a'), '[]']
+    api = [('query', 'findall', ('all',), [[Sym('v'), 0], [Sym('f'), 'nothing_here', [Sym('v'), 0]], nil]),
+           ('query', '=', ('all',), [nil, [Sym('v'), 1]]),
+           ('query', 'findall', ('all',), [[Sym('v'), 0], [Sym('f'), '=', [Sym('v'), 0], nil], [Sym('f'), '.', nil, nil]])]
+    ops = [('load', 'overwrite', prog)] + qs[:1] + api + [('clear',)] + qs[:1] + api + [('load', 'overwrite', prog)] + qs + api
     rep.count('builtins-after-clear')
     if scen.three_way(rep, drv, ops, 'case %d after clear' % i) == 'ok':
         rep.nontriv(scen.norm([scen.ops_json(ops[:1]), [q[1] for q in qs]]))
